@@ -136,6 +136,9 @@ def run(ck):
                         ck.violation("C09.R3", inst + ":weights pair swapped_k with original_k", asite, "each swapped configuration is weighted against the other replica's original")
                     elif sorted(map(repr, pairs)) == sorted(map(repr, [(S, sw1), (R, sw2)])):
                         ck.violation("C09.R3", inst + ":weights pair swapped_k with original_k", asite, "the weight arguments are reversed (original over swapped)")
+                    elif all(a in (sw1, sw2) for a, _ in pairs) and all(b in (S, R) for _, b in pairs):
+                        ck.violation("C09.R3", inst + ":weights pair swapped_k with original_k", asite,
+                                     "a swapped configuration is weighted against the wrong original (each weight must be psi(swapped_k)/psi(original_k), once per replica)")
                     else:
                         ck.undecided("C09.R3", inst + ":weights pair swapped_k with original_k", asite, "weight arguments not recognised: %r" % (pairs,))
                     # final value = Re(w1 * w2)
